@@ -10,6 +10,7 @@ static unsigned g_inside, g_overlap, g_order_bad, g_last_of[2], g_ran;
 struct KJob final : Job {
   void Call() noexcept final {
     if (++g_inside != 1) g_overlap = 1;
+    vp_hb_write(0);    // C04 ghost: data protected by the strand, written by every job: consecutive jobs must be ordered by happens-before
     vp_sync_point();   // the job body is a schedule point: another unit may run while this job is inside
     ++calls; ++g_ran;
     if (seq <= g_last_of[owner]) g_order_bad = 1;
